@@ -134,6 +134,43 @@ func main() {
 			fmt.Fprintln(os.Stderr, err)
 			os.Exit(2)
 		}
+		if rf.EngineOnly {
+			// schedule counterexample: re-execute the recorded decision vector in the engine
+			l, err := load()
+			if err != nil {
+				fmt.Fprintln(os.Stderr, err)
+				os.Exit(2)
+			}
+			fn, err := l.harness(rf.Pkg, rf.Harness)
+			if err != nil {
+				fmt.Fprintln(os.Stderr, err)
+				os.Exit(2)
+			}
+			sv, err := smt.Start("z3", 60000)
+			if err != nil {
+				fmt.Fprintln(os.Stderr, err)
+				os.Exit(2)
+			}
+			defer sv.Close()
+			e := exec.New(l.World, sv, exec.Config{Unwind: 1200, ContextBound: rf.Ctx, RaceCheck: rf.Race, RandChoice: rf.RandChoice, MaxSched: 30000, Trace: true})
+			var prefix []exec.Decision
+			for _, d := range rf.Decisions {
+				prefix = append(prefix, exec.Decision{Kind: exec.DecKind(d[0]), K: int(d[1]), N: int(d[2]), V: d[3]})
+			}
+			out := e.RunPath(fn, rf.Args, prefix)
+			n := len(out.Trace)
+			if n > 80 {
+				n = 80
+			}
+			for _, tl := range out.Trace[len(out.Trace)-n:] {
+				fmt.Println("   ", tl)
+			}
+			fmt.Printf("engine replay outcome: %s %s @ %s (recorded: %s %s @ %s)\n", out.Kind, out.Detail, out.Site, rf.Kind, rf.Detail, rf.Site)
+			if out.Kind != "ok" {
+				os.Exit(1)
+			}
+			return
+		}
 		res, err := runNative([]nativeCase{{ID: 0, Pkg: rf.Pkg, Harness: rf.Harness, Args: rf.Args, Nondet: rf.Nondet}})
 		if err != nil {
 			fmt.Fprintln(os.Stderr, err)
